@@ -19,6 +19,9 @@ EXTRA = [
     'send Port::msg(a: 1); send z = Port::msg(a: empty self);',
     'x = rcvd_evt.v; y = param.w; assign self.n = cardinality selected;',
     'for each a in as loop end for; while (true) loop break; end while; if (false) then elif (true) then else end if;',
+    # the short forms without `instances of`, with and without a where clause, every cardinality word
+    'select many xs from A where (selected.n > 1); select any y from B where (selected.v == 2); select many zs from A; select any w from B;',
+    'select one o related by self->A[R1]; select any p related by self->A[R1] where (selected.n == 1); select many qs related by self->B[R1]->A[R1];',
 ]
 NPROG = len(oalprogs.PROGRAMS) + len(EXTRA)
 KEYWORDS = set(k.lower() for k in oal.OALParser.keywords) | {'end'}
@@ -53,6 +56,8 @@ def tree(n):
             d.append((k, v.lower()))
         else:
             d.append((k, v))
+    if hasattr(type(n), 'many'):
+        d.append(('many (derived flag)', n.many))      # what the interpreter and the prebuilder branch on
     ch = getattr(n, 'children', None)
     if ch:
         # a child that is also a named field is not walked twice (exponential in the nesting depth): its place is recorded
